@@ -168,6 +168,40 @@ HANDLERS["transformed"] = _grid_handler("rt_c03", "C03 change-of-variables")
 HANDLERS["merge_transforms"] = _grid_handler("rt_c03", "C03 change-of-variables")
 
 
+@handler("shapes")
+def h_shapes(rec):
+    m, rp = rec["model"] or {}, rec["replay"]
+    cls = rp["cls"]
+
+    def dims(v, base=2):
+        # the formulas do not depend on the dimension values: keep rank, use small distinct positive sizes
+        return tuple(base + j for j in range(len(v)))
+
+    try:
+        if cls == "Stack":
+            r = rt.rt_shapes_case("Stack", s0=dims(m["s0"]), axis=int(m["axis"]))
+        elif cls == "Concatenate":
+            s0 = dims(m["s0"])
+            ax = int(m["axis"])
+            s1 = list(s0)
+            s1[ax] += 1
+            r = rt.rt_shapes_case("Concatenate", s0=s0, s1=tuple(s1), axis=ax)
+        elif cls == "Vmap":
+            r = rt.rt_shapes_case("Vmap", inner_shape=dims(m["inner_shape"])[:2], inner_cond_shape=dims(m["inner_cond_shape"], 3), in_axes_condition=int(m["in_axes_condition"]), axis_size=5)
+        else:
+            r = None
+        if r is not None:
+            return True, r
+    except Exception as ex:  # noqa: BLE001
+        pass
+    if os.environ.get("FJVC_REPLAY_SKIP_GRID") == "1":
+        return False, "not reproduced at the model point; the shape lattice already passed in this run"
+    fails = rt.rt_shapes_grid(first_only=True, only=cls)
+    if fails:
+        return True, fails[0]["what"]
+    return False, f"model shapes did not reproduce and the exhaustive small shape lattice of {cls} passed on the real code"
+
+
 def main(path):
     with open(path) as fh:
         rec = json.load(fh)
